@@ -18,7 +18,7 @@ from .. import au, pat
 from .common import *  # noqa
 from .common import key_of, noreturn_set
 from . import shared
-from .shared import enclosing
+from .shared import enclosing, path_conditions
 from .c08 import may_raise
 
 
@@ -146,12 +146,13 @@ def pairing(repo: Repo, R):
             why="re-connecting a port overwrites conns but leaves the old connectable pointing at the port")
     # dict shorthand and type check happen before the store
     conv = bool(pat.find(f"{cn} = AnonymousBundle(**{cn})", fc.node))
+    # canonical form: everything that stores lies under `if is_connectable(conn)`, whose other branch raises
     g = None
     for n in au.walk_no_nested(fc.node):
-        if isinstance(n, ast.If) and ast.unparse(n.test) == f"not is_connectable({cn})" and au.raises(n.body):
+        if isinstance(n, ast.If) and ast.unparse(n.test) == f"is_connectable({cn})" and au.raises(n.orelse):
             g = n
     stores = [x for x, _b in pat.find(f"self.conns[{pn}] = {cn}", fc.node)] + [x for x, _b in pat.find(f"self.replace({pn}, {cn})", fc.node)]
-    before = g is not None and all(g.lineno < getattr(x, "lineno", 0) for x in stores)
+    before = g is not None and bool(stores) and all(any(pol and t is g.test for t, pol in path_conditions(fc.node, x)) for x in stores)
     R.check(conv and before, rule, key_of(fc, "validated-before-store"), fc.site,
             f"dict shorthand is converted to an AnonymousBundle ({conv}) and non-connectables are rejected before anything is stored ({before})",
             why="a non-connectable object ends up in conns (it has no back-reference set)")
